@@ -24,6 +24,9 @@ def main(argv):
     reg = checks.registry()
     if len(argv) >= 2 and argv[0] == "--replay":
         return engine.replay_file(argv[1], reg)
+    if argv and argv[0] == "--digest":
+        from vsim import c07
+        return c07.digest_main()
     if argv and argv[0] == "--selftest-import":
         print("pams imported from", env.assert_repo())
         return 0
